@@ -929,6 +929,13 @@ func (h *handler) acquireGroupLease(ctx context.Context, groupID string) int16 {
 	if h.groupLeaseManager == nil {
 		return 0
 	}
+	if !h.groupLeaseManager.Owns(groupID) {
+		// The lease has to be taken, possibly again after it expired. Another
+		// broker may have coordinated the group in between, so a copy cached
+		// while this broker held the lease earlier is not to be trusted: drop it
+		// before the lease is taken, the coordinator reloads it from the store.
+		h.coordinator.ForgetGroup(groupID)
+	}
 	err := h.groupLeaseManager.Acquire(ctx, groupID)
 	if err == nil {
 		return 0
